@@ -1741,8 +1741,15 @@ pub fn c04(ix: &Index) -> Vec<Viol> {
                         h.hooks.iter().any(|e| e.vt == vt && e.t > t.0 && e.t < t.1 && matches!(e.kind, HookKind::BeforePush { free: 0, .. }))
                     };
                     let full = full_at(r.cancel_vt.first().copied(), r.cancel_t[0]) || r.finish_t.map_or(false, |f| full_at(r.finish_vt, f));
+                    // the cancel was parked in the cancelling thread's overflow list (its ring
+                    // was full) and the root was finished by another thread: the commit travels
+                    // through a queue with room and overtakes the parked cancel
+                    let parked_cancel = full_at(r.cancel_vt.first().copied(), r.cancel_t[0]);
+                    let overtaken = parked_cancel && r.finish_vt.is_some() && r.finish_vt != r.cancel_vt.first().copied();
                     let sig = if cancel_lost_at_exit(h, u) {
                         "cancelled-trace-delivered:exit-with-full-queue"
+                    } else if overtaken {
+                        "cancelled-trace-delivered:parked-cancel-overtaken"
                     } else if full {
                         "cancelled-trace-delivered:queue-full"
                     } else if cut {
@@ -2068,7 +2075,10 @@ pub fn c09(ix: &Index) -> Vec<Viol> {
     if h.cancelable {
         // (a cancel parked in the overflow list of a thread that then exits is outside "while the
         // thread lives"; that loss is C04's known finding)
-        for x in c04(ix).into_iter().filter(|x| x.sig.starts_with("cancelled-trace-delivered") && !x.sig.ends_with("exit-with-full-queue")) {
+        for x in c04(ix)
+            .into_iter()
+            .filter(|x| x.sig.starts_with("cancelled-trace-delivered") && !x.sig.ends_with("exit-with-full-queue") && !x.sig.ends_with("parked-cancel-overtaken"))
+        {
             let mut x = x;
             x.prop = "C09";
             out.push(x);
